@@ -17,6 +17,8 @@ type multiModel struct {
 	T          string // "service.multiStreamListener"
 	acquire    *ssa.Function
 	sockField  string
+	sockT      string // the struct type that declares sockField: T, or a struct embedded by value in T (socket + channels)
+	sockEmbed  string // the field of T that holds that embedded struct ("" when sockT == T)
 	countField string
 	cbField    string // func-typed callback field (manager notification), may be ""
 	createIf   *ssa.If
@@ -95,8 +97,20 @@ func findMultiListeners(c *Ctx, rule string) []*multiModel {
 					continue
 				}
 				t, fl, _, ok := eng.FieldLoad(x)
-				if !ok || t != m.T {
+				if !ok {
 					continue
+				}
+				embed := ""
+				if t != m.T {
+					// a field of a struct that T holds by value (an embedded "socket with its channels" bundle)
+					for _, tf := range c.P.StructFields(m.T) {
+						if _, isStruct := tf.Type().Underlying().(*types.Struct); isStruct && eng.TypeName(tf.Type()) == t {
+							embed = tf.Name()
+						}
+					}
+					if embed == "" {
+						continue
+					}
 				}
 				ft := fieldType(c.P, t, fl)
 				if ft == nil {
@@ -110,6 +124,8 @@ func findMultiListeners(c *Ctx, rule string) []*multiModel {
 					m.holders[bundle] = true
 				}
 				m.sockField, m.createIf, m.createFn = fl, iff, g
+				m.sockT, m.sockEmbed = t, embed
+				m.holders[t] = true
 				m.createEdge, m.skipEdge = eng.Edge{From: b, To: b.Succs[0]}, eng.Edge{From: b, To: b.Succs[1]}
 				if trueNonNil {
 					m.createEdge, m.skipEdge = m.skipEdge, m.createEdge
@@ -354,7 +370,11 @@ func ruleRefcount(c *Ctx, m *multiModel) {
 		}
 	}
 	c.Floor("REFCOUNT", "socket creation calls in "+short(f)+" and its helpers", nCreate, 1)
-	for _, st := range p.FieldStores(m.T, m.sockField) {
+	sockStores := p.FieldStores(m.sockT, m.sockField)
+	if m.sockEmbed != "" {
+		sockStores = append(sockStores, p.FieldStores(m.T, m.sockEmbed)...)
+	}
+	for _, st := range sockStores {
 		if m.R.In[st.Fn] && !st.Fresh {
 			c.CheckAt("REFCOUNT", m.T+":store-socket-only-when-absent", st.Ins, m.R.CutDeep(st.Ins, m.gCreate), "the socket field is overwritten while a socket exists")
 		}
@@ -388,7 +408,11 @@ func ruleRefcount(c *Ctx, m *multiModel) {
 	}
 	// (c) count and socket accesses under the type's mutex
 	for _, fld := range []string{m.countField, m.sockField} {
-		for _, acc := range p.FieldAccesses(m.T, fld) {
+		ft := m.T
+		if fld == m.sockField {
+			ft = m.sockT
+		}
+		for _, acc := range p.FieldAccesses(ft, fld) {
 			if acc.Fresh {
 				continue
 			}
@@ -426,7 +450,7 @@ func ruleRefcount(c *Ctx, m *multiModel) {
 		for _, t := range tests {
 			c.CheckAt("REFCOUNT", m.T+":release:decrement-before-zero-test", t, dec != nil && eng.Dominates(dec, t), "the zero test is not preceded by the decrement")
 		}
-		closeSock := methodCallOnField(p, "Close", m.T, m.sockField)
+		closeSock := methodCallOnField(p, "Close", m.sockT, m.sockField)
 		n := 0
 		for _, b := range r.Blocks {
 			for _, ins := range b.Instrs {
@@ -512,7 +536,11 @@ func writeOnceBeforeGo(c *Ctx, m *multiModel, field string) (bool, string) {
 			return false, "store at " + c.P.IPos(st.Ins) + " does not precede the go statement"
 		}
 	}
-	for _, st := range c.P.FieldStores(m.T, m.sockField) {
+	resetStores := c.P.FieldStores(m.sockT, m.sockField)
+	if m.sockEmbed != "" {
+		resetStores = append(resetStores, c.P.FieldStores(m.T, m.sockEmbed)...)
+	}
+	for _, st := range resetStores {
 		if st.Fresh {
 			continue
 		}
